@@ -7,7 +7,7 @@ from . import common as C, lin
 
 PROP = "C20"
 WIDEN_MAX = 150          # extra thorough-generator cases when the anchored sources have drifted (harness/drift.py)
-PROPS_FILE = "trunc/C20.v"
+PROPS_FILE = ["trunc/C20.v", "trunc/C20_inst.v"]
 TRUSTED_EXTRA = ["standard-library axioms of the classical real numbers used by trunc/C20*.v (via Reals / Coquelicot): ClassicalDedekindReals.sig_not_dec, sig_forall_dec, FunctionalExtensionality.functional_extensionality_dep, Classical_Prop.classic",
                  "the cdf values fed to the executable model come from math.erfc (seam); the theorems treat the cdf as any function with increments RInt phiR"]
 RULE = ("cases = one-dimensional measures (R in 1..3, rational standard deviation s so that the standardised limits are rational, "
